@@ -602,7 +602,10 @@ FValsKw == {"i1", "l1"}
 FTokDeep == { <<"{", ":">>, <<"{", "}">>, <<"}">>, <<"{">>, <<"[", "]">>, <<"a">> }
 FValsOne == {"i1"}
 FTokSim == FTokFull \cup FTokSpec
-\* lexical edge forms of field names, character by character: sign, space, "_", non-ASCII digits
-FTokNames == { <<"{">>, <<"}">>, <<"0">>, <<"1">>, <<" ">>, <<"+">>, <<"-">>, <<"_">>, <<"<ar0>">>, <<"<sup2>">> }
-KwNamesEdge == { <<" ", "0">>, <<"0", " ">>, <<"+", "0">>, <<"-", "1">>, <<"0", "_">>, <<"<sup2>">>, <<"<ar0>">>, <<"0">> }
+\* lexical edge forms of field names: sign, space, "_", non-ASCII digits.  Openers and closers are composite
+\* tokens so that three tokens reach "{ 0 }", "{+0}", "{0_0}", "{-1}" and their unterminated prefixes
+FTokNames == { <<"{">>, <<"{", " ">>, <<"{", "+">>, <<"{", "-">>, <<"{", "0">>, <<"{", "<ar0>">>, <<"{", "<sup2>">>,
+               <<"0">>, <<"1">>, <<" ">>, <<"_">>, <<"<ar0>">>, <<"}">>, <<"0", "}">>, <<" ", "}">> }
+KwNamesEdge == { <<" ", "0">>, <<"0", " ">>, <<" ", "0", " ">>, <<"+", "0">>, <<"-", "0">>, <<"-", "1">>, <<"0", "_", "0">>,
+                 <<"<sup2>">>, <<"<ar0>">>, <<"0">> }
 =============================================================================
